@@ -75,6 +75,7 @@ class DetLoop(asyncio.BaseEventLoop):
         self.sched_seed = sched_seed
         self.iteration_cost = iteration_cost
         self.max_callbacks = max_callbacks
+        self.max_vtime = float("inf")
         self.callbacks_run = 0
         self.iterations = 0
         self.clock_jumps = 0
@@ -148,6 +149,11 @@ class DetLoop(asyncio.BaseEventLoop):
                 self.on_quiescent()
             if sched:
                 if sched[0]._when > self._vtime:
+                    if sched[0]._when > self.max_vtime and not self._draining:
+                        # timers keep the loop alive but the run is far beyond any time it can
+                        # legitimately need: in a real deployment this is a run that never returns
+                        self.livelocked = True
+                        raise Livelock(f"virtual time horizon of {self.max_vtime} s passed")
                     self._vtime = sched[0]._when
                     self.clock_jumps += 1
             elif self._draining:
